@@ -51,10 +51,11 @@ const (
 	zzInvalid  // well-typed but not allowed (wrong version, not a host, bad CIDR, unknown level, 300 for uint8, -1 for mtu)
 	zzMistyped // wrong YAML node kind or unparsable scalar
 	zzAltValid // another allowed value (N9 for N3, debug for info, dns name for address)
+	zzNearMiss // an invalid value that begins or ends like a valid one (N39, gtp5gx, 10.60.0.0/16x)
 	zzNK
 )
 
-var zzKindName = [zzNK]string{"ok", "deleted", "emptied", "invalid", "mistyped", "alt-valid"}
+var zzKindName = [zzNK]string{"ok", "deleted", "emptied", "invalid", "mistyped", "alt-valid", "near-miss"}
 
 type zzDoc struct{ k [zzNF]int }
 
@@ -66,6 +67,11 @@ func zzScalar(f, k int) (string, bool) {
 		zzFForwarder: "other", zzFIfAddr: `"no host!"`, zzFIfType: "N6", zzFIfMTU: "-1", zzFDnn: `""`, zzFCidr: "10.60.0.0/33", zzFLevel: "verbose"}
 	alt := [zzNF]string{zzFVersion: "1.0.3", zzFPfcpAddr: "upf.free5gc.org", zzFNodeID: "127.0.0.9", zzFTimeout: "1500ms", zzFMaxRetrans: "255",
 		zzFForwarder: "gtp5g", zzFIfAddr: "upf.free5gc.org", zzFIfType: "N9", zzFIfMTU: "9000", zzFDnn: "ims", zzFCidr: "10.61.0.0/24", zzFLevel: "debug"}
+	near := [zzNF]string{zzFVersion: "1.0.3x", zzFPfcpAddr: "127.0.0.8/24", zzFNodeID: "127.0.0.8/24", zzFTimeout: "0s", zzFMaxRetrans: "300",
+		zzFForwarder: "gtp5gx", zzFIfAddr: "127.0.0.8/24", zzFIfType: "N39", zzFIfMTU: "-1", zzFDnn: `""`, zzFCidr: "10.60.0.0/16x", zzFLevel: "xinfo"}
+	if k == zzNearMiss {
+		return near[f], true
+	}
 	empty := `""`
 	switch f {
 	case zzFTimeout:
@@ -111,7 +117,7 @@ func (d *zzDoc) render() string {
 		case zzDeleted:
 		case zzEmptied:
 			sb.WriteString(key + ":\n")
-		case zzInvalid, zzMistyped:
+		case zzInvalid, zzMistyped, zzNearMiss:
 			sb.WriteString(key + ": 5\n")
 		default:
 			sb.WriteString(key + ":\n")
@@ -132,7 +138,7 @@ func (d *zzDoc) render() string {
 		case zzDeleted:
 		case zzEmptied:
 			sb.WriteString("  ifList: []\n")
-		case zzInvalid, zzMistyped:
+		case zzInvalid, zzMistyped, zzNearMiss:
 			sb.WriteString("  ifList: 5\n")
 		default:
 			sb.WriteString("  ifList:\n    - name: n3.upf\n")
@@ -145,7 +151,7 @@ func (d *zzDoc) render() string {
 	case zzDeleted:
 	case zzEmptied:
 		sb.WriteString("dnnList: []\n")
-	case zzInvalid, zzMistyped:
+	case zzInvalid, zzMistyped, zzNearMiss:
 		sb.WriteString("dnnList: 5\n")
 	default:
 		sb.WriteString("dnnList:\n  - natifname: eth0\n")
@@ -193,7 +199,7 @@ func (d *zzDoc) decode(c *Config) bool {
 	c.Description = "UPF configuration"
 	switch d.k[zzFPfcp] {
 	case zzDeleted, zzEmptied:
-	case zzInvalid, zzMistyped:
+	case zzInvalid, zzMistyped, zzNearMiss:
 		return false
 	default:
 		p := &Pfcp{}
@@ -220,7 +226,7 @@ func (d *zzDoc) decode(c *Config) bool {
 	}
 	switch d.k[zzFGtpu] {
 	case zzDeleted, zzEmptied:
-	case zzInvalid, zzMistyped:
+	case zzInvalid, zzMistyped, zzNearMiss:
 		return false
 	default:
 		g := &Gtpu{}
@@ -231,7 +237,7 @@ func (d *zzDoc) decode(c *Config) bool {
 		case zzDeleted:
 		case zzEmptied:
 			g.IfList = []IfInfo{}
-		case zzInvalid, zzMistyped:
+		case zzInvalid, zzMistyped, zzNearMiss:
 			return false
 		default:
 			i := IfInfo{Name: "n3.upf"}
@@ -254,7 +260,7 @@ func (d *zzDoc) decode(c *Config) bool {
 	case zzDeleted:
 	case zzEmptied:
 		c.DnnList = []DnnList{}
-	case zzInvalid, zzMistyped:
+	case zzInvalid, zzMistyped, zzNearMiss:
 		return false
 	default:
 		e := DnnList{NatIfName: "eth0"}
@@ -268,7 +274,7 @@ func (d *zzDoc) decode(c *Config) bool {
 	}
 	switch d.k[zzFLogger] {
 	case zzDeleted, zzEmptied:
-	case zzInvalid, zzMistyped:
+	case zzInvalid, zzMistyped, zzNearMiss:
 		return false
 	default:
 		l := &Logger{Enable: true}
